@@ -167,7 +167,8 @@ SUBCHECKS = [
              budget={"quick": 15, "thorough": 300}, shards={"quick": 3, "thorough": 16}, modes=E2E_MODES),
     SubCheck(name="per_round_statistics_and_optimiser_arguments",
              strategy=lambda: gen.e2e_config(betas=(0.0, 0.5, 2.0, 10.0, 50.0, 400.0), limits=(2, 3, 5, 30),
-                                             lam_forms=("scalar", "scalar", "const_matrix", "random_matrix", "asymmetric_matrix"), allow_degenerate=True), execute=execute,
+                                             lam_forms=("scalar", "scalar", "const_matrix", "random_matrix", "asymmetric_matrix"), allow_degenerate=True,
+                                             eps_values=(0, 0, 0, 1e-3, 0.05, 0.3)), execute=execute,
              budget={"quick": 160, "thorough": 4000}, shards={"quick": 16, "thorough": 8}, modes=E2E_MODES,
              min_nontrivial_fraction=0.25),
     SubCheck(name="stored_fit_is_the_clusters_own_also_with_worker_processes", strategy=_multiworker_case, execute=execute_fit_belongs_to_cluster,
